@@ -125,6 +125,9 @@ def generate(rng, tier):
     if r.random() < 0.1:
         options["keep_host_header"] = True
     origin = {"kind": "h1", "replies": replies, "idle_close": 3.0, "connect": [{"delay": r.choice([0, 0, 0.01])}]}
+    if rng.at("c01-expect").random() < 0.5:
+        # the origin honours an expectation that reaches it (100 Continue before the scripted answer)
+        origin["continue_on_expect"] = True
     return {"family": "http1-" + mode.split(":")[0], "modes": [mode], "eager": r.random() < 0.5, "options": options,
             "clients": [{"steps": steps, "methods": methods,
                          "original_dst": ["a.test", 80] if mode == "transparent" else None}],
@@ -405,6 +408,11 @@ def oracle(sc, obs):
             interim = True
     if interim:
         bump("origin_interim_1xx")
+    if any(what == "expect_continue" for _, _, what, _ in obs.origin_log):
+        # the interim response was provoked by an `Expect: 100-continue` that mitmproxy forwarded although it answers
+        # (and strips) that expectation itself: a different cause than an origin volunteering a 1xx
+        bump("expect_reached_origin")
+        interim = "expect_forwarded"
     for x in v:
         if x["class"].startswith(("client_", "response_")):
             x["key"]["origin_interim_1xx"] = interim
